@@ -51,6 +51,17 @@ var sharpPool = []seriesT{
 	{"abc", "abc", "abc"},
 }
 
+// sharp12 (quick, multisets of size 3): the sharp pool without {host=ab,zone=b} and {host=a,é=aé}.
+func sharp12() []seriesT {
+	var out []seriesT
+	for i, s := range sharpPool {
+		if i != 9 && i != 12 {
+			out = append(out, s)
+		}
+	}
+	return out
+}
+
 // productPool (thorough): host in {-,a,ab,abc,b,aé} x zone in {-,a,b} x é in {-,aé}.
 func productPool() []seriesT {
 	var out []seriesT
@@ -71,6 +82,13 @@ var boundaryPool = []seriesT{
 	{"", "b", ""},
 	{"b", "b", "aé"},
 	{"", "", ""},
+}
+
+// smallBoundaryPool (quick): a series without zone, two with different zone values / more keys.
+var smallBoundaryPool = []seriesT{
+	{"a", "", ""},
+	{"ab", "a", ""},
+	{"b", "b", "aé"},
 }
 
 // multisets enumerates all multisets (non-decreasing index sequences) of size lo..hi over a pool of n series.
